@@ -102,18 +102,26 @@ theorem C08_partial : (∀ s ∈ Gen.model.structures, recordMismatches Gen.mode
                 ctx.violation(KF_KEY, f"{len(lacking)} of {len(doc['notifications'])} generated notification classes carry no method string (e.g. {lacking[0]}); requests carry it in [LSPRequest(\"...\")]",
                               {"classes": lacking[:5], "how": "python -m generator --plugin dotnet; open <Name>Notification.cs: no attribute holds the method string"})
     problems += evolved_pass(ctx, doc)
+    if ctx.thorough():
+        # thorough tier: the obligations proved for further evolved metamodels, seeded edit sequences (VERIF_SEED)
+        import random
+        import evolve
+        for i, (tag, sdesc, sdoc) in enumerate(evolve.seeded(doc, random.Random(ctx.seed * 7919 + 17), 3, length=(3, 6))):
+            if evolve.discipline_problems(sdoc):
+                continue
+            problems += evolved_pass(ctx, doc, sfx=f"S{i}", given=(sdoc, sdesc))
     if problems and not ctx.violations:
         ctx.violation("C08|proof", "C08 obligations no longer check and the checker lists no mismatch", {"broken": problems}, no_input=True)
 
 
-def evolved_pass(ctx, doc):
+def evolved_pass(ctx, doc, sfx="E", given=None):
     """The same obligations, proved for one composite evolved metamodel of C06's family (every listed edit kind applied once):
     the property quantifies over the committed metamodel and the evolved ones; C06 explores many more with the mismatch list."""
     import shutil
     import props.c07 as c07
     problems = []
-    edoc, desc = c07.evolved_model(doc)
-    what = "the evolved metamodel [" + desc[:300] + " ...]"
+    edoc, desc = given if given else c07.evolved_model(doc)
+    what = ("the evolved metamodel [" if sfx == "E" else f"seeded evolved metamodel {sfx} [") + desc[:300] + " ...]"
     d = common.scratch_dir("c08-evolved")
     try:
         mf = d / "model.json"
@@ -121,46 +129,47 @@ def evolved_pass(ctx, doc):
         sv = common.run_py(common.VERIF / "tools/search/schema_ok.py", [str(mf)], check=False)
         if sv.stdout.strip() != "ok":
             raise Broken("the evolved metamodel is not schema-valid (tools/evolve.py): " + sv.stdout[:300] + sv.stderr[-300:])
-        mod, err = tables.gen_meta(ctx, [mf], modname="GenMetaE", ns="GenE")
+        mod, err = tables.gen_meta(ctx, [mf], modname="GenMeta" + sfx, ns="Gen" + sfx)
         if mod is None:
             raise Broken("x_meta failed (evolved): " + err)
         p = common.run_py(common.VERIF / "tools/extract/x_dotnet.py", ["--model", str(mf)], check=False, timeout=900)
     finally:
         shutil.rmtree(d, ignore_errors=True)
     if p.returncode == 4:
-        ctx.violation("C08|plugin-fails|evolved", f"the dotnet plugin fails on {what}: " + p.stderr[-300:],
+        ctx.violation("C08|plugin-fails|evolved" + sfx, f"the dotnet plugin fails on {what}: " + p.stderr[-300:],
                       {"error": p.stderr[-1500:], "model": what, "how": "python -m generator --plugin dotnet --output-dir <scratch> --model <evolved model: tools/props/c07.py evolved_model>"})
         return problems
     if p.returncode != 0:
-        ctx.obligation("x_dotnetE", False, "translator", p.stderr)
+        ctx.obligation("x_dotnet" + sfx, False, "translator", p.stderr)
         return ["x_dotnet (evolved): " + p.stderr[-800:]]
-    H = HDR.replace("GenMeta", "GenMetaE").replace("GenDotnet", "GenDotnetE")
-    text = p.stdout.replace("namespace Gen", "namespace GenE").replace("end Gen", "end GenE").replace("import GenMeta", "import GenMetaE").replace("Gen.model", "GenE.model")
-    r = tables.compile_cached(ctx, "GenDotnetE", text)
+    H = HDR.replace("GenMeta", "GenMeta" + sfx).replace("GenDotnet", "GenDotnet" + sfx)
+    text = p.stdout.replace("namespace Gen", "namespace Gen" + sfx).replace("end Gen", "end Gen" + sfx).replace("import GenMeta", "import GenMeta" + sfx).replace("Gen.model", f"Gen{sfx}.model")
+    r = tables.compile_cached(ctx, "GenDotnet" + sfx, text)
     if not r.ok:
-        raise Broken("GenDotnetE does not elaborate: " + r.out[-2000:])
-    layer, lemma, imports = tableprop.sliced_all(H, "C08Es", "GenE.model.structures", "fun s => (recordMismatches GenE.model GenE.dotnet s).isEmpty", 25, len(edoc["structures"]), "C08E_structs_chk")
-    layer.append(("C08Erest", H + "theorem C08E_rest_chk : dotnetRest GenE.model GenE.dotnet = [] := by decide +kernel\n"))
-    final = imports + "import C08Erest\n" + H + lemma + """
-/-- C08 for the evolved metamodel (partial in the same way as C08_partial). -/
-theorem C08_evolved_partial : (∀ s ∈ GenE.model.structures, recordMismatches GenE.model GenE.dotnet s = []) ∧ dotnetRest GenE.model GenE.dotnet = [] := by
-  refine ⟨fun s hs => ?_, C08E_rest_chk⟩
-  have := List.all_eq_true.mp C08E_structs_chk s hs
+        raise Broken(f"GenDotnet{sfx} does not elaborate: " + r.out[-2000:])
+    layer, lemma, imports = tableprop.sliced_all(H, f"C08{sfx}s", f"Gen{sfx}.model.structures", f"fun s => (recordMismatches Gen{sfx}.model Gen{sfx}.dotnet s).isEmpty", 25, len(edoc["structures"]), f"C08{sfx}_structs_chk")
+    layer.append((f"C08{sfx}rest", H + f"theorem C08{sfx}_rest_chk : dotnetRest Gen{sfx}.model Gen{sfx}.dotnet = [] := by decide +kernel\n"))
+    thm = "C08_evolved_partial" if sfx == "E" else f"C08_evolved_{sfx}_partial"
+    final = imports + f"import C08{sfx}rest\n" + H + lemma + f"""
+/-- C08 for {'the evolved metamodel' if sfx == 'E' else 'a seeded evolved metamodel'} (partial in the same way as C08_partial). -/
+theorem {thm} : (∀ s ∈ Gen{sfx}.model.structures, recordMismatches Gen{sfx}.model Gen{sfx}.dotnet s = []) ∧ dotnetRest Gen{sfx}.model Gen{sfx}.dotnet = [] := by
+  refine ⟨fun s hs => ?_, C08{sfx}_rest_chk⟩
+  have := List.all_eq_true.mp C08{sfx}_structs_chk s hs
   simpa using this
-#print axioms C08_evolved_partial
+#print axioms {thm}
 """
-    for mn, t in layer + [("InstE", final)]:
+    for mn, t in layer + [("Inst" + sfx, final)]:
         common.write_module(ctx.work, mn, t)
-    res = common.lean_compile(ctx.work, [[m for m, _ in layer], ["InstE"]])
-    failed = ctx.add_lean_results(res, theorems_expected={"InstE": ["C08_evolved_partial"]})
+    res = common.lean_compile(ctx.work, [[m for m, _ in layer], ["Inst" + sfx]])
+    failed = ctx.add_lean_results(res, theorems_expected={"Inst" + sfx: [thm]})
     ctx.corr["evaluations"] += sum(len(s["properties"]) for s in edoc["structures"]) + len(edoc["enumerations"]) + (len(edoc["requests"]) * 4 + len(edoc["notifications"]) * 2)
     ctx.corr["distinct_nontrivial"] = ctx.corr["evaluations"]
     if failed:
-        f = common.write_module(ctx.work, "EvalE", EVAL.replace("GenMeta", "GenMetaE").replace("GenDotnet", "GenDotnetE").replace("Gen.", "GenE."))
+        f = common.write_module(ctx.work, "Eval" + sfx, EVAL.replace("GenMeta", "GenMeta" + sfx).replace("GenDotnet", "GenDotnet" + sfx).replace("Gen.", f"Gen{sfx}."))
         q = subprocess.run(["lean", str(f)], capture_output=True, text=True, env=common.lean_env(ctx.work), cwd=str(ctx.work))
         mm = [(l.split("\t")[1:] + ["", "", "", ""])[:4] for l in q.stdout.splitlines() if l.startswith("MISMATCH\t")]
         for site, aspect, exp, act in mm[:40]:
-            ctx.violation(f"C08|{site}|{aspect}|evolved", f".cs files as emitted by the dotnet plugin for {what}: {site} {aspect}: expected {exp[:160]}, found {act[:160]}",
+            ctx.violation(f"C08|{site}|{aspect}|evolved" + ("" if sfx == "E" else sfx), f".cs files as emitted by the dotnet plugin for {what}: {site} {aspect}: expected {exp[:160]}, found {act[:160]}",
                           {"item": site, "aspect": aspect, "expected": exp, "found": act, "model": what,
                            "how": "python -m generator --plugin dotnet --output-dir <scratch> --model <evolved model: tools/props/c07.py evolved_model>; open the named class"})
         if not mm:
